@@ -294,6 +294,9 @@ def run(ctx: Ctx) -> None:
 
     # ---- R4 -------------------------------------------------------------------------------
     decode_cache_objects(ctx, wrap)
+    if ctx.report.prop == "C12":
+        from .common import share_rules as _share8
+        _share8(ctx, "C08", "C12.R9", ['C08.R14'], 'the bare memory store decides presence by membership, not by the truth value of the blob: the wrapped store - which answers presence from what it fetched - then never disagrees with it on falsy blobs')
 
 
 def store_refreshes_cache(ctx: Ctx, rule: str) -> int:
